@@ -1030,6 +1030,16 @@ def install(it):
     M['strconv.ParseInt'] = m_ParseInt
     def m_ParseFloat(it_, a):
         if not isinstance(a[0], bytes):
+            # digits only (decided by the solver under the path condition): the correctly rounded value of a decimal
+            # integer below 2^63 is the int->float64 conversion of that integer (both round to nearest even)
+            els = it.str_els(a[0])
+            if 0 < len(els) <= 18:
+                alld = z3.And([z3.And(bv8(e) >= 48, bv8(e) <= 57) for e in els])
+                if it.check(z3.Not(alld)) == z3.unsat:
+                    v = z3.BitVecVal(0, 64)
+                    for e in els:
+                        v = v * 10 + (z3.ZeroExt(56, bv8(e)) - 48)
+                    return (z3.simplify(z3.fpSignedToFP(FP_RM, v, z3.Float64())), None)
             return sym_parse('ParseFloat', a[0], '%s' % (a[1],), z3.Float64())
         s = conc_str(a[0]); txt = s.decode('latin-1')
         t = txt
